@@ -5,6 +5,7 @@ PROP = {
         "lean_targets": ["Sonic.Props.C20"],
         "theorems": [
             "Sonic.Props.C20.C20_addresses_saved_bytes",
+        "Sonic.Props.C20.step_resetAll",
             "Sonic.Props.C20.C20_offsetter_addresses_saved_bytes",
             "Sonic.Props.C20.C20_inv_reachable",
             "Sonic.Props.C20.C20_pop_addresses",
